@@ -1,37 +1,2 @@
-"""C03 - encoder output equals the X.690 encoding computed by the independent reference."""
-import json
-
-from .. import core, tlc, codec_pipeline as P, codec_run as R
-from .. import universe as U
-
-QUICK = dict(kinds=['bool', 'int', 'enum', 'bits', 'octs', 'null', 'oid', 'real', 'utf8', 'numeric', 'printable',
-                    't61', 'videotex', 'ia5', 'graphic', 'visible', 'general', 'universal', 'bmp', 'objdesc',
-                    'gentime', 'utctime'],
-             tagnums=[0, 30, 31, 127, 128, 16383, 16384, 2 ** 32], classes=[1, 2, 3], maxstack=1,
-             shapes=['scalar', 'any', 'seq', 'set', 'seqof', 'setof', 'choice', 'deep'], pool=1,
-             modes=['der', 'cer'])
-THOROUGH = dict(QUICK, tagnums=[0, 1, 30, 31, 127, 128, 16383, 16384, 2 ** 32, 2 ** 64], pool=3, maxstack=1)
-
-BER_MODES = [(True, 0), (False, 0), (True, 2), (False, 3)]
-
-
-def plan(case):
-    T, v = case['T'], case['v']
-    try:
-        obj = U.build_value(T, v)
-    except Exception as e:
-        return {'id': case['id'], 'T': T, 'v': v, 'ev': [], 'build_error': '%s: %s' % (type(e).__name__, e)}
-    ev = [R.enc_event('der', obj), R.enc_event('cer', obj)]
-    for d, c in BER_MODES:
-        ev.append(R.enc_event('ber', obj, d, c))
-    return {'id': case['id'], 'T': T, 'v': v, 'ev': ev}
-
-
-def run(ctx):
-    cfg = QUICK if ctx.quick else THOROUGH
-    with tlc.Scratch('c03') as sc:
-        cases = P.generate(ctx, sc, cfg)
-        for T, v in P.size_cases(not ctx.quick):
-            cases.append({'id': len(cases) + 1, 'T': T, 'v': v, 'forms': {}})
-        traces = core.pmap(plan, cases)
-        P.codec_common_finish(ctx, sc, cases, traces)
+"""C03 - see codec_props.py"""
+from .codec_props import run_prop as run
